@@ -216,6 +216,8 @@ class C02(Prop):
         points = [(op, n) for op, mx in sorted(per_op.items()) for n in range(1, mx + 1)]
         if len(points) > 40:
             points = sorted(r.sample(points, 40))
+        if base["problem"]["family"] == "decaymix" and len(points) > 8:
+            points = sorted(r.sample(points, 8))        # long runs: the fault-free history is the point of this family
         for j, (op, n) in enumerate(points):
             c = copy.deepcopy(base)
             kind = self.KINDS[(j + seed) % len(self.KINDS)]
